@@ -62,7 +62,7 @@ def _tables():
     gtf = {}
     for m in re.finditer(r'\b(TxR|InR|OutR)\((\d+),\s*"(\w+)"', txt):
         gtf[int(m.group(2))] = (m.group(3), {"TxR": "tx", "InR": "input", "OutR": "output"}[m.group(1)])
-    for m in re.finditer(r'\bRow\((\d+),\s*"(\w+)",\s*\w+,\s*(?:Rest\(\w+\)|\{\}|\w+),\s*"(\w+)"', txt):
+    for m in re.finditer(r'\bRow(?:Nf)?\((\d+),\s*"(\w+)",\s*\w+,\s*(?:Rest\(\w+\)|\{\}|\w+),\s*"(\w+)"', txt):
         gtf[int(m.group(1))] = (m.group(2), m.group(3))
     gm = {int(a): b for a, b in re.findall(r'\((\d+) :> "(\w+)"\)', txt)}
     if len(gtf) < 80 or len(gm) < 8:
@@ -108,13 +108,21 @@ def _describe(e, init, gtf, gm):
     return dict(ins="op%02x" % op, name="?", dim="?", pres="?", idx="-", dest=dest, obs=obs, defined=False, b=0)
 
 
+# selectors whose implemented meaning is not a function of the element at the index: their classes carry no element dimension
+NO_ELEMENT_DIMENSION = {"InputContractOutputIndex"}
+
+
 def _class(d):
-    """stable class string of a deviating event (coarse on purpose: the set of classes must not depend on the seed)"""
+    """stable class string of a deviating event: instruction / selector / dimension / observed outcome, where the dimension is
+    the transaction kind (transaction-level selectors), the variant of the indexed element or `absent` (list selectors), the
+    context (GM).  The set of classes a given deviation can produce is closed and does not depend on the seed."""
     if d["ins"] == "GTF" and d["defined"] and d["idx"] == "ge2^32" and d["obs"] == "InvalidMetadataIdentifier":
         return "vmmeta/GTF/index>=2^32/InvalidMetadataIdentifier"
     if d["dest"] == "reserved" and d["obs"] == "ok":
         return "vmmeta/%s/reserved-destination/ok" % d["ins"]
-    return "vmmeta/%s/%s/%s/%s" % (d["ins"], d["name"], d["pres"], d["obs"])
+    if d["name"] in NO_ELEMENT_DIMENSION:
+        return "vmmeta/%s/%s/%s" % (d["ins"], d["name"], d["obs"])
+    return "vmmeta/%s/%s/%s/%s" % (d["ins"], d["name"], d["dim"], d["obs"])
 
 
 # ------------------------------------------------------------------------------------------------------------------
@@ -158,6 +166,34 @@ def _validate_tolerant(chk, trace_path, events, parallel, timeout):
     return states, bad, len(segs)
 
 
+MC_INVARIANTS = ["I_Total", "I_OutcomeShape", "I_UnknownSelector", "I_WrongKind", "I_OutOfRange", "I_InRangeAnswered", "I_IndexIgnored",
+                 "I_PolicyLaw", "I_PointerInImage", "I_ValueFits", "I_ZeroedLaw", "I_AliasesAgree", "TableWellFormed", "GmTotal", "GmContext", "Emit"]
+
+
+def _model_check(chk, thorough, dump):
+    """Leg M (TLC without -coverage: the per-expression statistics of the recursive format operators exhaust the heap; the
+    vacuity test is done on the state count instead)"""
+    base = os.path.join(vlib.SPEC, SPEC_MC.replace(".tla", ".cfg"))
+    txt = open(base).read()
+    txt = re.sub(r"(?m)^(\s*Thorough\s*=\s*).*$", lambda m: m.group(1) + ("TRUE" if thorough else "FALSE"), txt)
+    txt = re.sub(r"(?m)^(\s*EmitReplay\s*=\s*).*$", lambda m: m.group(1) + "TRUE", txt)
+    cfg = os.path.basename(base).replace(".cfg", "_%d.gen.cfg" % os.getpid())
+    with open(os.path.join(os.path.dirname(base), cfg), "w") as f:
+        f.write(txt)
+    try:
+        res = vlib.tlc(SPEC_MC, cfg=cfg, workers=4, timeout=2400, xmx="6g", dump_out=dump, tag="C05_mc_%d" % os.getpid())
+    finally:
+        os.remove(os.path.join(os.path.dirname(base), cfg))
+    if res.invariant_violated:
+        raise ToolError("model %s violates %s at design level:\n%s" % (SPEC_MC, res.invariant_violated, vlib.tlc_fail_text(res, 80)))
+    if not res.ok:
+        raise ToolError("TLC failed on %s:\n%s" % (SPEC_MC, vlib.tlc_fail_text(res)))
+    chk.add("states", res.distinct)
+    chk.add("transitions", res.generated)
+    chk.add("model_states", res.distinct)
+    return res
+
+
 def _mut_step(events, rng):
     """binding self-test: perturb one logged observation of one GTF/GM event (a returned value / address, the gas charge,
     the panic reason)"""
@@ -173,8 +209,10 @@ def _mut_step(events, rng):
             e["regs"][ra] = str(int(e["regs"][ra]) + rng.choice([1, 8, 32]))      # value / address off by a little
             e.pop("deref", None)
             return i
-        if e["out"] == "panic" and e.get("reason") in ("InputNotFound", "OutputNotFound", "WitnessNotFound", "PolicyIsNotSet"):
-            e["reason"] = "InvalidMetadataIdentifier"
+        swap = {"InputNotFound": "WitnessNotFound", "OutputNotFound": "WitnessNotFound", "WitnessNotFound": "InputNotFound",
+                "PolicyIsNotSet": "InvalidMetadataIdentifier", "CanNotGetGasPriceInPredicate": "ExpectedInternalContext"}
+        if e["out"] == "panic" and e.get("reason") in swap:
+            e["reason"] = swap[e["reason"]]                                       # another list's / condition's panic reason
             return i
     return None
 
@@ -184,20 +222,25 @@ def run(pid, tier):
 
     def body(chk):
         thorough = tier == "thorough"
+        import time
+        t0 = time.time()
+
+        def lap(what):
+            log("[C05] %s done at %.0fs" % (what, time.time() - t0))
         vlib.harness_build(BIN)
         gtf, gm = _tables()
         # ---- Leg M: the decision table on model transactions; the same run generates the cases of Leg R ----
         dump = os.path.join(vlib.WORK, "%s_mc_dump.txt" % pid)
-        res = tc.model_check(chk, SPEC_MC, constants={"Thorough": "TRUE" if thorough else "FALSE", "EmitReplay": "TRUE"}, workers=4,
-                             timeout=2400, dump_out=dump, tag=pid + "_mc")
-        chk.set("model", dict(spec=SPEC_MC, distinct_states=res.distinct,
-                              invariants=["Total", "OutcomeShape", "WrongKind", "UnknownSelector", "OutOfRange", "PointerInImage", "ValueFits",
-                                          "AliasesAgree", "TableWellFormed", "GmTotal", "GmContext", "Emit"]))
+        res = _model_check(chk, thorough, dump)
         beh = os.path.join(vlib.WORK, "%s_cases.ndjson" % pid)
         nlines = tc.extract_replay(dump, beh)
-        if nlines == 0:
-            raise ToolError("Leg R: TLC emitted no cases")
         os.remove(dump)
+        lines = vlib.read_ndjson(beh)
+        ncases = sum(len(x["cases"]) for x in lines)
+        # vacuity: both actions were taken for every model transaction (1 start state + one state per transaction + one per case)
+        if nlines == 0 or res.distinct != 1 + nlines + ncases or res.depth != 3:
+            raise ToolError("vacuous model run: %d transactions, %d cases, %d states, depth %d" % (nlines, ncases, res.distinct, res.depth))
+        chk.set("model", dict(spec=SPEC_MC, distinct_states=res.distinct, model_transactions=nlines, cases=ncases, invariants=MC_INVARIANTS))
         # ---- Leg R: every case on the real interpreter ----
         rres = os.path.join(vlib.WORK, "%s_replay.ndjson" % pid)
         vlib.vh(["replay", DOM, beh, "-o", rres], bin=BIN, timeout=1800)
@@ -206,13 +249,19 @@ def run(pid, tier):
             if "summary" in r:
                 summary = r["summary"]
             elif "mismatch" in r:
-                seen.setdefault(r["mismatch"], r)
-        if summary is None:
-            raise ToolError("Leg R: no summary in " + rres)
-        for what, r in sorted(seen.items()):
-            chk.violation("vmmeta/replay/" + what, rres, dict(leg="R", **{k: r[k] for k in ("expected", "observed", "sel", "b", "case") if k in r}))
-        chk.add("behaviours_replayed", summary["cases"])
-        chk.set("replay", summary)
+                ob = r["observed"]
+                pseudo = dict(word="%08x" % ((0x61 << 24) | (0x10 << 18) | (0x11 << 12) | r["sel"]), poke={"17": r["b"]},
+                              out="proceed" if ob.get("ok") else "panic", reason=ob.get("why"))
+                d = _describe(pseudo, dict(tx=lines[r["line"]]["tx"], regs=["0"] * 64, ctx=dict(kind="predicate")), gtf, gm)
+                seen.setdefault(_class(d), []).append(r)
+        if summary is None or summary["cases"] != ncases:
+            raise ToolError("Leg R: incomplete replay %s of %d cases" % (summary, ncases))
+        for cls, rs in sorted(seen.items()):
+            r = rs[0]
+            chk.violation(cls, rres, dict(leg="R", cases_in_class=len(rs), **{k: r[k] for k in ("name", "expected", "observed", "sel", "b", "case")}))
+        chk.add("behaviours_replayed", ncases)
+        lap("legs M+R")
+        chk.set("replay", dict(summary, classes=sorted(seen)))
         # ---- Leg T ----
         tr = os.path.join(vlib.WORK, "%s_trace.ndjson" % pid)
         vlib.vh(["record", DOM, "--tier", tier, "-o", tr], bin=BIN, timeout=1800)
@@ -222,6 +271,7 @@ def run(pid, tier):
             chk.violation("vmmeta/HostPanic/" + str(events[i].get("where")), tr, dict(leg="T", index=i, event=tc._short(events[i])))
         events = [e for e in events if e.get("ev") != "HostPanic"]
         states, bad, nseg = _validate_tolerant(chk, tr, events, 4, 2400)
+        lap("leg T")
         # the Init event each event belongs to
         init_of, cur = {}, None
         inits = 0
@@ -272,6 +322,7 @@ def run(pid, tier):
         vlib.write_ndjson(clean, [e for i, e in enumerate(events) if i not in badset or e.get("ev") == "Init"])
         tc.selftest_corrupt(chk, DOM, SPEC_TR, clean, _mut_step, max_events=3000, timeout=1200)
         os.remove(clean)
+        lap("self-test")
         chk.set("evaluations", len(events) - len(badset) + summary["cases"])
         chk.set("distinct_nontrivial", len(keys))
         chk.set("rule", RULE)
